@@ -104,14 +104,18 @@ func compressNumeric(tables ...[][]rcell) bool {
 	need := false
 	ints := map[int64]bool{}
 	flts := map[float64]bool{}
+	dts := map[int64]bool{}
 	for _, t := range tables {
 		for _, r := range t {
 			for _, c := range r {
 				if c.N {
 					continue
 				}
-				if (c.hasBI && !c.HasI) || (c.HasF && c.Fk == "odd") {
+				if (c.hasBI && !c.HasI) || (c.HasF && c.Fk == "odd") || (c.HasD && (c.D > 1<<30 || c.D < -(1<<30))) {
 					need = true
+				}
+				if c.HasD {
+					dts[c.D] = true
 				}
 				if c.hasBI {
 					ints[c.bi] = true
@@ -143,12 +147,24 @@ func compressNumeric(tables ...[][]rcell) bool {
 	for k, v := range fl {
 		fr[v] = int64(k)
 	}
+	dl := make([]int64, 0, len(dts))
+	for v := range dts {
+		dl = append(dl, v)
+	}
+	sort.Slice(dl, func(a, b int) bool { return dl[a] < dl[b] })
+	dr := map[int64]int64{}
+	for k, v := range dl {
+		dr[v] = int64(k)
+	}
 	for _, t := range tables {
 		for _, r := range t {
 			for j := range r {
 				c := &r[j]
 				if c.N {
 					continue
+				}
+				if c.HasD {
+					c.D = dr[c.D] // seconds -> rank (order and equality of instants are kept)
 				}
 				if c.hasBI {
 					c.HasI, c.I = true, ir[c.bi]
@@ -314,6 +330,15 @@ func genDT(r *core.Run, row int) (string, bool) {
 		return "", true
 	}
 	return fmt.Sprintf("2012-02-%02d %02d:00:00", 1+r.Rand.Intn(5), r.Rand.Intn(3)), false
+}
+
+// datetimes from year 1 to year 9999 (a count of nanoseconds since 1970 fits 64 bits only from 1678 to 2262)
+func genDTFar(r *core.Run, row int) (string, bool) {
+	if r.Rand.Intn(10) == 0 {
+		return "", true
+	}
+	return []string{"0001-01-01 00:00:00", "1000-06-15 12:00:00", "1677-09-21 00:12:43", "1678-01-01 00:00:00", "1969-12-31 23:59:59", "1990-01-01 00:00:00",
+		"2020-12-31 00:00:00", "2262-04-11 23:47:17", "2263-01-01 00:00:00", "9999-12-31 23:59:59"}[r.Rand.Intn(10)], false
 }
 
 func genTable(r *core.Run, name string, cols []string, gens []colGen, n int) *rtable {
